@@ -313,7 +313,7 @@ func buildFixture(dir, state string) (info *fxInfo, err error) {
 	gAddr := cipher.AddressFromPubKey(k.genPub)
 
 	// wallets: plain deterministic (3 addresses), encrypted deterministic (2), bip44 (2 external)
-	plain, err := n.w.CreateWallet("plain.wlt", wallet.Options{Type: wallet.WalletTypeDeterministic, Seed: fxPlainSeed, Label: "plain", GenerateN: 3})
+	plain, err := n.w.CreateWallet("plain.wlt", wallet.Options{Type: wallet.WalletTypeDeterministic, Seed: fxPlainSeed, Label: "plain", GenerateN: 3, CryptoType: crypto.CryptoTypeSha256Xor})
 	if err != nil {
 		return nil, fmt.Errorf("create plain wallet: %v", err)
 	}
@@ -321,7 +321,7 @@ func buildFixture(dir, state string) (info *fxInfo, err error) {
 	if err != nil {
 		return nil, fmt.Errorf("create encrypted wallet: %v", err)
 	}
-	b44, err := n.w.CreateWallet("bip44.wlt", wallet.Options{Type: wallet.WalletTypeBip44, Seed: fxBip44Seed, Label: "bip44", GenerateN: 2})
+	b44, err := n.w.CreateWallet("bip44.wlt", wallet.Options{Type: wallet.WalletTypeBip44, Seed: fxBip44Seed, Label: "bip44", GenerateN: 2, CryptoType: crypto.CryptoTypeSha256Xor})
 	if err != nil {
 		return nil, fmt.Errorf("create bip44 wallet: %v", err)
 	}
